@@ -7,6 +7,8 @@ PYVC_TRUSTED = ['engine/pyvc (VC generator; mitigated by canaries, scratch mutan
 REWIRERS = ['randmio_und', 'randmio_dir', 'randmio_und_connected', 'randmio_dir_connected', 'latmio_und', 'latmio_dir', 'latmio_und_connected',
             'latmio_dir_connected', 'randomize_graph_partial_und']
 
+UTL = 'contracts.utils'
+
 REGISTRY = {
     'C01': dict(level='proof', bounded='checks.bounded.C01',
                 pyvc=[(REF, k, None, C11_CLAUSES) for k in REWIRERS], trusted=PYVC_TRUSTED,
@@ -19,4 +21,11 @@ REGISTRY = {
                 pyvc=[(REF, k, C11_CLAUSES, None) for k in ['latmio_und', 'latmio_dir', 'latmio_und_connected', 'latmio_dir_connected', 'randomize_graph_partial_und']] +
                      [(REF, 'randmio_und_connected#reject', None, None), (REF, 'latmio_und_connected#reject', None, None)], trusted=PYVC_TRUSTED,
                 technique='deductive (pyvc+z3) for lattice cost, mask and input rejection; connectivity preservation bounded only'),
+    'C17': dict(level='proof', bounded='checks.bounded.C17',
+                pyvc=[(UTL, k, None, None) for k in ['threshold_absolute', 'binarize', 'invert', 'normalize', 'teachers_round']], trusted=PYVC_TRUSTED,
+                assumptions=['threshold_proportional and the weight_conversion dispatch are covered by the bounded stand-in only'],
+                technique='deductive (pyvc+z3) for threshold_absolute, binarize, invert, normalize, teachers_round incl. copy-flag identity; bounded stand-in for threshold_proportional, weight_conversion'),
 }
+for _pid in ['C02', 'C03', 'C04', 'C05', 'C07', 'C08', 'C09', 'C10', 'C12', 'C13', 'C14', 'C15', 'C16', 'C18', 'C19', 'C20']:
+    REGISTRY.setdefault(_pid, dict(level='exploration', bounded='checks.bounded.%s' % _pid, trusted=['oracles of checks/bounded/%s.py' % _pid],
+                                   technique='bounded stand-in: the property\'s contract executed on the real functions over exhaustive small scopes'))
